@@ -189,3 +189,24 @@ def weighted_pdag(p, ch, und, lab):
 
 def pdag_any(p, ch, und, lab="pdag"):
     return pdag_matrix(p, ch, und) if lab == "pdag" else weighted_pdag(p, ch, und, lab)
+
+
+def path_graphs():
+    """[(name, p, ch, und)]: long paths (undirected, directed, mixed; natural and scrambled labels) on 6, 7 and 11 nodes - shapes on which a
+    closure computed with too few squarings or a search cut off at a fixed depth goes wrong."""
+    out = []
+    for p in (6, 7, 11):
+        for lname, lab in (("natural", list(range(p))), ("scrambled", [(3 * i + 1) % p for i in range(p)] if p % 3 else [(5 * i + 2) % p for i in range(p)])):
+            if sorted(lab) != list(range(p)):
+                continue
+            for kind in ("undirected", "directed", "mixed"):
+                ch, und = [0] * p, [0] * p
+                for i in range(p - 1):
+                    a, b = lab[i], lab[i + 1]
+                    if kind == "undirected" or (kind == "mixed" and i >= 2):
+                        und[a] |= 1 << b
+                        und[b] |= 1 << a
+                    else:
+                        ch[a] |= 1 << b
+                out.append(("%s path p=%d %s labels" % (kind, p, lname), p, ch, und))
+    return out
